@@ -1,7 +1,7 @@
 (* C14 — dataflow of TensorDictModule / TensorDictSequential.  DEFINITIONS ONLY.
    Transcribes tensordict/nn/common.py (TensorDictModule.forward, _write_to_tensordict, _OutKeysSelect, dispatch) and
-   tensordict/nn/sequence.py (_compute_in_and_out_keys, select_subsequence, _run_module, forward), plus the part of
-   base.py:update(keys_to_update=...) the sequence relies on.
+   tensordict/nn/sequence.py (_compute_in_and_out_keys, select_subsequence, _run_module, forward), plus how forward copies
+   its out_keys into the destination (select + update; behind [fixed_D143] the former update(keys_to_update=...)).
 
    Values are terms of a free algebra: "the same value" means "the same for every module function".
    A tensordict is its map leaf-key -> value (keys are tuples; depth <= 2 and prefix-free is the modelled domain of
@@ -51,18 +51,27 @@ Definition nested (k : key) : bool := Nat.ltb 1 (List.length k).
 Definition has_node (f : string) (t : td) : bool :=
   existsb (fun kv => String.eqb (hdk (fst kv)) f && nested (fst kv)) t.
 
-(* base.py:update(src, keys_to_update=ktu): the filter looks at the FIRST component of a key only; below an existing
-   nested node the pruned keys filter exactly; a nested node the destination does not have yet is set as a whole
-   (D143: kept, the test-suite pins it). *)
-Definition upd_cond (dst : td) (ktu : list key) (k : key) : bool :=
-  existsb (fun k' => String.eqb (hdk k') (hdk k)) ktu
-  && (negb (nested k) || negb (has_node (hdk k) dst) || memk k ktu).
+(* How forward copies the advertised out_keys from the executing tensordict into the destination.
+   [fx = true] (the library today, D143 repaired in the modules): dst.update(src.select( *ktu, strict=False )) -- exactly
+   the entries named by ktu (keys of the modelled domain are leaf keys, prefix-free).
+   [fx = false] (before the repair): `dst.update(src, keys_to_update=ktu)`; base.py:update filters on the FIRST component
+   of a key only; below an existing nested node the pruned keys filter exactly; a nested node the destination does not
+   have yet is set as a whole, sibling leaves included (base.py itself still behaves so: test_update_select pins it). *)
+Definition upd_cond_gen (fx : bool) (dst : td) (ktu : list key) (k : key) : bool :=
+  if fx then memk k ktu
+  else existsb (fun k' => String.eqb (hdk k') (hdk k)) ktu
+       && (negb (nested k) || negb (has_node (hdk k) dst) || memk k ktu).
 
-Definition upd_ktu (dst src : td) (ktu : list key) : td :=
+Definition upd_ktu_gen (fx : bool) (dst src : td) (ktu : list key) : td :=
   fold_left (fun acc k => match get k src with
-                          | Some v => if upd_cond dst ktu k then set k v acc else acc
+                          | Some v => if upd_cond_gen fx dst ktu k then set k v acc else acc
                           | None => acc
                           end) (keys src) dst.
+
+(* the switch: [true] = /repo with the repair of D143; [false] = the witness of the defect *)
+Definition fixed_D143 : bool := true.
+Notation upd_cond := (upd_cond_gen fixed_D143).
+Notation upd_ktu := (upd_ktu_gen fixed_D143).
 
 (* ------------------------------------------------------------------ modules *)
 Inductive inplace := ITrue | IFalse | IEmpty.
@@ -174,23 +183,23 @@ Section Run.
 End Run.
 
 (* what forward does once the modules have run *)
-Definition finish (c : scfg) (okeys : list key) (o : option td) (st : (td * option td) + (td * option td)) : outcome :=
+Definition finish_gen (fx : bool) (c : scfg) (okeys : list key) (o : option td) (st : (td * option td) + (td * option td)) : outcome :=
   match st with
   | inr (cur, sh) => Raised (inp_of cur sh) o
   | inl (cur, sh) =>
       let xin := inp_of cur sh in
       match o with
-      | Some ot => Done xin (Some (upd_ktu ot cur okeys)) ROut
+      | Some ot => Done xin (Some (upd_ktu_gen fx ot cur okeys)) ROut
       | None =>
           match sinpl c with
           | Some ITrue => match sh with
                           | None => Done cur None RIn                       (* update(self): no-op *)
-                          | Some s => Done (upd_ktu s cur okeys) None RIn
+                          | Some s => Done (upd_ktu_gen fx s cur okeys) None RIn
                           end
-          | Some _ => Done xin None (RFresh (upd_ktu [] cur okeys))
+          | Some _ => Done xin None (RFresh (upd_ktu_gen fx [] cur okeys))
           | None =>
               if is_some (ssel c)
-              then Done (upd_ktu xin cur (okeys ++ keys xin)) None RIn
+              then Done (upd_ktu_gen fx xin cur (okeys ++ keys xin)) None RIn
               else match sh with
                    | None => Done cur None RIn
                    | Some s => Done s None (RFresh cur)
@@ -204,12 +213,15 @@ Definition seq_okeys (c : scfg) (ms : list node) : list key :=
 Definition seq_copied (c : scfg) (o : option td) : bool :=
   match o with Some _ => true | None => is_some (ssel c) end.
 
-Fixpoint fwd (n : node) (x : td) (o : option td) {struct n} : outcome :=
+Fixpoint fwd_gen (fx : bool) (n : node) (x : td) (o : option td) {struct n} : outcome :=
   match n with
   | Leaf l => fwd_leaf l x o
   | Seq c ms =>
-      finish c (seq_okeys c ms) o (run_gen fwd (spt c) ms x (if seq_copied c o then Some x else None))
+      finish_gen fx c (seq_okeys c ms) o (run_gen (fwd_gen fx) (spt c) ms x (if seq_copied c o then Some x else None))
   end.
+
+Notation finish := (finish_gen fixed_D143).
+Notation fwd := (fwd_gen fixed_D143).
 
 Definition result_td (oc : outcome) : option td :=
   match oc with
